@@ -32,23 +32,24 @@ Last(s, c) == LET P == Pos(s, c, 1) IN IF P = {} THEN 0 ELSE MaxOf(P)
 
 (* ---- grammar:  pattern ::= ( literal | "%(" name [ ":" spec ] ")" )*                              *)
 (* an item starts at every "%(" and extends to the first ")" after it; everything else is literal.  *)
+(* (the positions of "%(", ")" and ":" are computed once per pattern: TLC is slow on texts)          *)
 ItemStarts(p, from) == {i \in from..(Len(p) - 1) : Ch(p, i) = Pct /\ Ch(p, i + 1) = LP}
+FirstIn(P, lo, hi) == LET Q == {x \in P : x >= lo /\ x <= hi} IN IF Q = {} THEN 0 ELSE MinOf(Q)
 
-RECURSIVE Items(_, _)
-Items(p, i) ==
+RECURSIVE ItemsFrom(_, _, _, _, _)
+ItemsFrom(p, i, S, R, Cl) ==      \* S, R, Cl: positions of "%(", ")" and ":" in p
   IF i > Len(p) THEN <<>>
-  ELSE LET S == ItemStarts(p, i) IN
-       IF S = {} THEN << [k |-> "lit", t |-> SubSeq(p, i, Len(p))] >>
-       ELSE LET j == MinOf(S) IN
-            IF j > i THEN << [k |-> "lit", t |-> SubSeq(p, i, j - 1)] >> \o Items(p, j)
-            ELSE LET close == First(p, RP, j + 2) IN
-                 IF close = 0 THEN << [k |-> "open"] >>        \* "%(" never closed
-                 ELSE LET body == SubSeq(p, j + 2, close - 1)
-                          col == First(body, Colon, 1)
-                      IN << [k |-> "attr",
-                             name |-> IF col = 0 THEN body ELSE SubSeq(body, 1, col - 1),
-                             spec |-> IF col = 0 THEN Empty ELSE SubSeq(body, col + 1, Len(body))] >>
-                         \o Items(p, close + 1)
+  ELSE LET j == FirstIn(S, i, Len(p)) IN
+       IF j = 0 THEN << [k |-> "lit", t |-> SubSeq(p, i, Len(p))] >>
+       ELSE IF j > i THEN << [k |-> "lit", t |-> SubSeq(p, i, j - 1)] >> \o ItemsFrom(p, j, S, R, Cl)
+       ELSE LET close == FirstIn(R, j + 2, Len(p)) IN
+            IF close = 0 THEN << [k |-> "open"] >>        \* "%(" never closed
+            ELSE LET col == FirstIn(Cl, j + 2, close - 1) IN
+                 << [k |-> "attr",
+                     name |-> IF col = 0 THEN SubSeq(p, j + 2, close - 1) ELSE SubSeq(p, j + 2, col - 1),
+                     spec |-> IF col = 0 THEN Empty ELSE SubSeq(p, col + 1, close - 1)] >>
+                 \o ItemsFrom(p, close + 1, S, R, Cl)
+Items(p, i) == ItemsFrom(p, i, ItemStarts(p, 1), Pos(p, RP, 1), Pos(p, Colon, 1))
 
 (* ---- format spec: the width/alignment subset of the fmt mini-language  [[fill]align][width]       *)
 IsAlign(c) == c \in {AlLeft, AlRight, AlCenter}
@@ -110,14 +111,21 @@ Subst(it, i, vals) ==
   ELSE (IF it[i].k = "lit" THEN it[i].t ELSE Pad(vals[KeyOf(it[i].name)], SpecOf(it[i].spec)))
        \o Subst(it, i + 1, vals)
 Expected(p, vals) == Subst(Items(p, 1), 1, vals)
-Line(p, vals) == Expected(p, vals) \o NLc          \* "... plus a final newline"
+LineI(it, vals) == Subst(it, 1, vals) \o NLc      \* "... plus a final newline"
+Line(p, vals) == LineI(Items(p, 1), vals)
 
 (* ---- attribute values derived from the source location "path:line" and from the named-arg pairs   *)
-FullPath(src) == SubSeq(src, 1, Last(src, Colon) - 1)
-LineNo(src) == SubSeq(src, Last(src, Colon) + 1, Len(src))
-FileName(src) == LET fp == FullPath(src) IN SubSeq(fp, Last(fp, Slash) + 1, Len(fp))
-ShortLoc(src) == (FileName(src) \o Colon) \o LineNo(src)
-WellFormedSrc(src) == Last(src, Colon) > 0 /\ Pos(LineNo(src), Slash, 1) = {}
+SrcParts(src) ==
+  LET colon == Last(src, Colon)
+      fp == SubSeq(src, 1, colon - 1)
+      ln == SubSeq(src, colon + 1, Len(src))
+      fn == SubSeq(fp, Last(fp, Slash) + 1, Len(fp))
+  IN [colon |-> colon, full_path |-> fp, line_number |-> ln, file_name |-> fn, short |-> (fn \o Colon) \o ln]
+FullPath(src) == SrcParts(src).full_path
+LineNo(src) == SrcParts(src).line_number
+FileName(src) == SrcParts(src).file_name
+ShortLoc(src) == SrcParts(src).short
+WellFormedSrc(src) == LET sp == SrcParts(src) IN sp.colon > 0 /\ Pos(sp.line_number, Slash, 1) = {}
 RECURSIVE JoinPairs(_, _)
 JoinPairs(ps, i) ==
   IF i > Len(ps) THEN Empty
@@ -125,13 +133,15 @@ JoinPairs(ps, i) ==
 
 \* b: the statement as the caller supplied it (record: time caller_function log_level log_level_short_code
 \* logger thread_id thread_name process_id source_location message tags named)
-AllVals(b) == [k \in Keys |->
-  CASE k = "file_name" -> FileName(b.source_location)
-    [] k = "full_path" -> FullPath(b.source_location)
-    [] k = "line_number" -> LineNo(b.source_location)
-    [] k = "short_source_location" -> ShortLoc(b.source_location)
-    [] k = "named_args" -> JoinPairs(b.named, 1)
-    [] OTHER -> b[k]]
+AllVals(b) ==
+  LET sp == SrcParts(b.source_location) IN
+  [k \in Keys |->
+    CASE k = "file_name" -> sp.file_name
+      [] k = "full_path" -> sp.full_path
+      [] k = "line_number" -> sp.line_number
+      [] k = "short_source_location" -> sp.short
+      [] k = "named_args" -> JoinPairs(b.named, 1)
+      [] OTHER -> b[k]]
 
 (* ---- multi-line messages                                                                          *)
 \* the lines of a message: pieces between newlines; a newline at the very end terminates the last line
@@ -150,11 +160,12 @@ Strip1(m) == IF Len(m) > 0 /\ Ch(m, Len(m)) = NLc THEN SubSeq(m, 1, Len(m) - 1) 
 \* sequences of lines.  multi = add_metadata_to_multi_line_logs, named = the statement has named args
 \* (documented: the option is ignored for them, so both shapes are accepted there).
 \* "at most one trailing newline removed": removing none or one is accepted, never more.
-AllowedOuts(p, vals, multi, named) ==
+AllowedOutsI(it, vals, multi, named) ==
   LET m == vals["message"]
-      one(mm) == Line(p, [vals EXCEPT !["message"] = mm])
+      one(mm) == LineI(it, [vals EXCEPT !["message"] = mm])
       ls == MsgLines(m)
       split == [i \in 1..Len(ls) |-> one(ls[i])]
       whole == { << one(m) >>, << one(Strip1(m)) >> }
   IN IF multi /\ ~named THEN {split} ELSE IF ~multi THEN whole ELSE whole \cup {split}
+AllowedOuts(p, vals, multi, named) == AllowedOutsI(Items(p, 1), vals, multi, named)
 =============================================================================
